@@ -233,6 +233,25 @@ def _one(i, kind, v, rec, tz, log, nonzero=True):
                               tz, v, u.value[2].properties.timestamp
                               if u.ok else u.describe()), case)
             return
+    # a peer that sends epoch milliseconds (wire value > 0xFFFFFFFF)
+    ms = secs * 1000 + (i * 37) % 1000
+    if ms > 0xFFFFFFFF:
+        dm = call(decode.timestamp, struct.pack('>Q', ms))
+        exp_ms = refcodec.EPOCH + datetime.timedelta(milliseconds=ms)
+        okms = dm.ok and isinstance(dm.value[1], datetime.datetime) and \
+            dm.value[1].tzinfo is not None and \
+            dm.value[1].utcoffset() == datetime.timedelta(0) and \
+            abs((dm.value[1] - exp_ms) / datetime.timedelta(
+                microseconds=1)) <= (0 if ms < 4294967296000 else 32)
+        if not okms:
+            rec.violation('decoded-ms-instant', 'TZ=%s: decode.timestamp of '
+                          'the millisecond value %d = %r, expected %r'
+                          % (tz, ms, dm.value[1] if dm.ok else dm.describe(),
+                             exp_ms), case)
+            return
+        rec.count('ms_values_decoded')
+        if log is not None:
+            log.update(repr(dm.value[1].isoformat()).encode())
     if log is not None:
         log.update(b'%d|' % i + e.value + repr(
             (got.isoformat(), str(got.utcoffset()))).encode())
@@ -292,6 +311,8 @@ def gates(m, tier):
         out.append('both signs of UTC offset not observed')
     if not any(e[3] % 3600 for e in eff):
         out.append('no half-hour / 45-minute offset observed')
+    if not m.counters.get('ms_values_decoded'):
+        out.append('no millisecond wire value decoded')
     for k in ('aware-utc', 'aware-zone', 'aware-fixed', 'naive-local-fields',
               'naive-utc-fields', 'struct_time', 'struct_time-local-fields',
               'naive-gap-or-fold'):
